@@ -772,6 +772,40 @@ def native_replay(workdir, ob, inputs, driver_cc):
     return res
 
 
+def native_fuzz(workdir, ob, driver_cc, seed, tries=4000, seconds=40):
+    """Structural obligations (operator uninterpreted on both sides) have verifier models that may rest on an arbitrary meaning of the operator, so the model's
+    inputs need not fail on the real code.  This runs the SAME contract text natively (the replay binary, UBSan) on boundary-biased random inputs to attach a
+    concrete failing input to the report.  -> replay dict with confirmed True and the inputs, or None."""
+    import random, struct
+    exe, msg = build_replay(workdir, ob, driver_cc, CLANG)
+    if exe is None: return None
+    rnd = random.Random('%s/%s/fuzz' % (ob.id, seed))
+    t0 = time.time()
+
+    def pick(t):
+        w = BITS.get(t, 64)
+        if t in ('float', 'double'):
+            x = rnd.choice([0.0, -0.0, 1.0, -1.0, 0.5, 1.5, 3.0, 1e6, 1e-6, 12345.678, float('inf'), float('nan'), 2.0 ** rnd.randrange(-60, 60),
+                            rnd.uniform(-1e9, 1e9), float(rnd.randrange(-10 ** 6, 10 ** 6)), rnd.uniform(-4, 4)])
+            return struct.unpack('<I', struct.pack('<f', x))[0] if t == 'float' else struct.unpack('<Q', struct.pack('<d', x))[0]
+        if t == 'bool': return rnd.randrange(2)
+        r = rnd.random()
+        if r < 0.3: return rnd.randrange(0, 64) % (1 << w)
+        if r < 0.45: return (-rnd.randrange(1, 64)) % (1 << w)
+        if r < 0.6: return ((1 << rnd.randrange(1, w)) + rnd.randrange(-2, 3)) % (1 << w)
+        if r < 0.7: return ((1 << w) - 1 - rnd.randrange(0, 4)) % (1 << w)
+        return rnd.getrandbits(w)
+    for k in range(tries):
+        if time.time() - t0 > seconds: break
+        vals = {n: pick(t) for t, n in ob.inputs}
+        rc, out, err, dt = run([exe] + ['%x' % vals[n] for t, n in ob.inputs], timeout=20)
+        if 'CHECK-FAILED' in (out or '') or 'runtime error' in (err or ''):
+            return {'inputs_hex': {n: '%x' % v for n, v in vals.items()}, 'confirmed': True, 'found_by': 'native search over the same contract text (%d inputs tried)' % (k + 1),
+                    'runs': [{'compiler': CLANG, 'outcome': 'contract-violated' if 'CHECK-FAILED' in (out or '') else 'ub', 'stdout': (out or '')[-600:], 'stderr': (err or '')[-600:],
+                              'cmd': ' '.join([exe] + ['%x' % vals[n] for t, n in ob.inputs])}]}, vals
+    return None
+
+
 def native_search(workdir, ob, seconds=25):
     """A failed modular obligation (kinds D/L) has no verifier counterexample that means anything for the real code (the failing state may be an
     arbitrary loop state, or a model of the uninterpreted functions).  When the obligation carries an executable native oracle
